@@ -3,7 +3,7 @@
    association lists in insertion order), Stats/DistReal.v (distances over the reals). *)
 Require Import Coq.ZArith.ZArith Coq.QArith.QArith Coq.QArith.Qabs Coq.Lists.List Coq.Strings.String.
 Require Import Coq.Reals.Reals Coq.Sorting.Permutation.
-Require Import OQ.Stats.Dist OQ.Stats.DistProofs OQ.Stats.DistReal.
+Require Import OQ.Stats.Dist OQ.Stats.DistProofs OQ.Stats.DistReal OQ.Stats.GaussPSD.
 Import ListNotations.
 Open Scope Q_scope.
 
@@ -167,13 +167,51 @@ Theorem mmd_order_irrelevant : forall (A : Type) (kern : A -> A -> R) ks ks' p q
 Proof. exact @mmd_perm_lemma. Qed.
 Print Assumptions mmd_order_irrelevant.
 
-(* full statement:  forall sigmas ks p q, 0 <= mmd (gauss_multi sigmas) ks p q  (all kernel widths).
-   Proved under the explicit hypothesis that the kernel matrix is positive semidefinite on ks; what is missing is
-   the classical fact that the Gaussian kernel exp(-(x-y)^2/(2 sigma)) is positive semidefinite for sigma > 0
-   (Bochner / Schur products), which is not proved here; the implementation's values are checked by the oracle. *)
-Theorem mmd_nonneg_partial : forall (A : Type) (kern : A -> A -> R) ks p q, psd kern ks -> 0 <= mmd kern ks p q.
+(* any kernel: non-negative whenever the kernel matrix is positive semidefinite on ks *)
+Theorem mmd_nonneg_any_psd_kernel : forall (A : Type) (kern : A -> A -> R) ks p q, psd kern ks -> 0 <= mmd kern ks p q.
 Proof. exact @mmd_nonneg_lemma. Qed.
-Print Assumptions mmd_nonneg_partial.
+Print Assumptions mmd_nonneg_any_psd_kernel.
+
+(* ---- positive semidefiniteness of the Gaussian kernels of mmd.py (Stats/GaussPSD.v: exp as the limit of its
+   Taylor sums, every partial quadratic form a sum of scaled squares), hence the full clause *)
+Theorem gauss_kernel_psd : forall (A : Type) (g : R) (x : A -> R) (ks : list A),
+  0 <= g -> psd (fun i j => exp (- g * (x i - x j) ^ 2)) ks.
+Proof. exact @gauss_gamma_psd. Qed.
+Print Assumptions gauss_kernel_psd.
+
+Theorem rbf_kernel_psd : forall sigma ks, 0 < sigma -> psd (gauss sigma) ks.
+Proof. exact gauss_psd. Qed.
+Print Assumptions rbf_kernel_psd.
+
+Theorem multi_rbf_kernel_psd : forall sigmas ks,
+  sigmas <> [] -> Forall (fun s => 0 < s) sigmas -> psd (gauss_multi sigmas) ks.
+Proof. exact gauss_multi_psd. Qed.
+Print Assumptions multi_rbf_kernel_psd.
+
+(* the MMD of compute_mmd is non-negative for every positive kernel width / non-empty list of positive widths,
+   every key enumeration and all real vectors p, q (in particular all pairs of distributions).  The code divides by
+   2*sigma and by len(sigmas): sigma = 0 raises and an empty list gives nan, hence the guards. *)
+Theorem mmd_nonneg_single : forall sigma ks p q, 0 < sigma -> 0 <= mmd (gauss sigma) ks p q.
+Proof. exact mmd_gauss_nonneg. Qed.
+Print Assumptions mmd_nonneg_single.
+
+Theorem mmd_nonneg : forall sigmas ks p q,
+  sigmas <> [] -> Forall (fun s => 0 < s) sigmas -> 0 <= mmd (gauss_multi sigmas) ks p q.
+Proof. exact mmd_gauss_multi_nonneg. Qed.
+Print Assumptions mmd_nonneg.
+
+(* the sign guard is needed: a negative width gives a negative "distance" between two genuine distributions *)
+Theorem mmd_negative_width_refuted :
+  exists sigma ks p q, sigma < 0 /\ (forall k, In k ks -> 0 <= p k /\ 0 <= q k) /\
+    rsum (map p ks) = 1 /\ rsum (map q ks) = 1 /\ mmd (gauss sigma) ks p q < 0.
+Proof. exact mmd_gauss_negative_sigma_refuted. Qed.
+Print Assumptions mmd_negative_width_refuted.
+
+Example mmd_nonneg_premises_met :
+  0 <= mmd (gauss_multi [1 / 4; 2]) [[0; 1]; [1; 0]; [1; 1]]%nat
+           (fun k => match basis k with 1%Z => 1 / 2 | 2%Z => 1 / 2 | _ => 0 end)
+           (fun k => match basis k with 3%Z => 3 / 4 | 2%Z => 1 / 4 | _ => 0 end).
+Proof. exact mmd_gauss_multi_nonneg_example. Qed.
 
 Example psd_premise_met : forall (f : key -> R) ks, psd (fun i j => f i * f j) ks.
 Proof. exact (@psd_rank_one key). Qed.
